@@ -9,6 +9,8 @@ class RecorderRule(RulePlugin):
     LOG = []
     FAULT_AT = None  # raise when the callback counter equals this
     COUNT = 0
+    FAULT_FILE = None  # file being processed when the fault was raised (None: not known)
+    FAULTED = False
 
     def get_details(self):
         return PluginDetailsV2(
@@ -25,22 +27,26 @@ class RecorderRule(RulePlugin):
         cls.LOG = []
         cls.FAULT_AT = fault_at
         cls.COUNT = 0
+        cls.FAULT_FILE = None
+        cls.FAULTED = False
 
-    def _tick(self, entry):
+    def _tick(self, entry, context=None):
         RecorderRule.LOG.append(entry)
         k = RecorderRule.COUNT
         RecorderRule.COUNT = k + 1
         if RecorderRule.FAULT_AT is not None and RecorderRule.FAULT_AT == k:
+            RecorderRule.FAULTED = True
+            RecorderRule.FAULT_FILE = context.scan_file if context is not None else None
             raise RuntimeError("injected fault")
 
     def starting_new_file(self):
         self._tick(("start",))
 
     def next_token(self, context, token):
-        self._tick(("token", token))
+        self._tick(("token", token), context)
 
     def next_line(self, context, line):
-        self._tick(("line", context.line_number, line))
+        self._tick(("line", context.line_number, line), context)
 
     def completed_file(self, context):
-        self._tick(("done",))
+        self._tick(("done",), context)
